@@ -65,6 +65,9 @@ def check_name(run, name: str, eps) -> None:
         doc = Document("text" if "draw_page" not in label and "table" not in label else ("presentation" if "draw_page" in label else "spreadsheet"))
         try:
             store(doc, name)
+        except etree.XPathError as ex:
+            run.violation(f"query-error-while-storing|{label}", {"kind": "exc", "name": name, "got": repr(ex)[:200]})
+            continue
         except (ValueError, TypeError, etree.XMLSyntaxError, AttributeError):
             run.klass(label, "rejected-by-setter")
             continue      # identifier not accepted by this setter: outside the quantifier
